@@ -604,4 +604,174 @@ example : let c := Cache.init (fun k => k.d0.toNat % 4) [0, 1, 2, 3]
     ((c.insert ⟨1, 0⟩ [7]).insert ⟨5, 0⟩ [9]).find ⟨1, 0⟩ = none ∧
     ((c.insert ⟨1, 0⟩ [7]).clearKey ⟨1, 0⟩).find ⟨1, 0⟩ = none := by decide
 
+/-! ### cache::save / cache::load as GENERATED terms (session 4)
+
+`Gen.save` / `Gen.load` are the bodies of `cache::save(std::ostream &) const` and
+`cache::load(std::istream &)` as tools/translate_cache.py extracts them (statement language and semantics:
+IO.lean; `hash_t::empty()` inlined from its own body).  The theorems say that their semantics is the
+token-level model `saveT` / `loadT`, which `loadT_toksOf` ties to the `Saved`-level model the history
+theorems above are about — so `greload`, until now the hand model's save + load, is what the extracted
+code does.  The loop bodies are handled through relational step specifications (`LoadStep`, `CountStep`,
+`WriteStep` of IOLemmas.lean): the scripts never quote the body text. -/
+
+open Vita.C04.IO in
+/-- cache::save never changes the cache, succeeds, and writes exactly the tokens of the model's `save`:
+    the seal, the number of savable slots, then key and fitness of each savable slot in slot order.
+    (A count header that disagrees with the entries, a slot of an older seal / with an empty key / an
+    empty fitness written out, or a different order all break this.) -/
+theorem gen_save_is_model (st : CState) : gsave st = some (true, st, saveT (toCache st)) := by
+  simp only [gsave, runSave, Gen.save, iexec_seq, iexec_pure, iexec_write, iexec_forSlots, iexec_retGood, exec,
+    liftOut, eval]
+  generalize hF1 : iexec gcs (gdom st.mask) _ = F1
+  generalize hF2 : iexec gcs (gdom st.mask) _ = F2
+  have hc : CountStep st (toCache st).savable 1 2 F1 := by
+    subst hF1
+    intro s j n h0 hn
+    rcases s with ⟨st', env, inp, out⟩
+    simp only at h0 hn; subst h0
+    by_cases h1 : (st'.table j).sl = st'.sl <;> by_cases h2 : (st'.table j).hash.d0 = 0 <;>
+      by_cases h3 : (st'.table j).hash.d1 = 0 <;> cases h4 : (st'.table j).fit <;>
+      simp [iexec, eval, exec, liftOut, Env.set, hn, slotGet, Cache.savable, Key.empty, toCache, h1, h2, h3, h4]
+  have hw : WriteStep st (toCache st).savable 3 F2 := by
+    subst hF2
+    intro s j h0
+    rcases s with ⟨st', env, inp, out⟩
+    simp only at h0; subst h0
+    by_cases h1 : (st'.table j).sl = st'.sl <;> by_cases h2 : (st'.table j).hash.d0 = 0 <;>
+      by_cases h3 : (st'.table j).hash.d1 = 0 <;> cases h4 : (st'.table j).fit <;>
+      simp [iexec, eval, exec, liftOut, Env.set, slotGet, Cache.savable, Key.empty, toCache, h1, h2, h3, h4]
+  obtain ⟨env1, he1, hr1⟩ := overSlots_count hc (gdom st.mask)
+    ⟨st, Env.empty.set 1 (Val.u64 (UInt64.ofNat 0)), [], [] ++ [Tok.u32 st.sl]⟩ (UInt64.ofNat 0) rfl (by simp [Env.set])
+  simp only at hr1 he1
+  simp only [hr1, he1]
+  obtain ⟨env2, hr2⟩ := overSlots_write hw (gdom st.mask)
+    ⟨st, env1, [], [] ++ [Tok.u32 st.sl] ++ [Tok.size (UInt64.ofNat 0 +
+      UInt64.ofNat (((gdom st.mask).map st.table).filter (toCache st).savable).length)]⟩ rfl
+  simp only at hr2
+  simp only [hr2]
+  simp [saveT, toksOf, Cache.save, toCache]
+
+open Vita.C04.IO in
+theorem gen_load_header_ok (st : CState) (sl : UInt32) (n : UInt64) (rest : List Tok) :
+    gload st (.u32 sl :: .size n :: rest) = some ((loadT (toCache st) (.u32 sl :: .size n :: rest)).1,
+      ofCache st.mask (loadT (toCache st) (.u32 sl :: .size n :: rest)).2) := by
+  simp only [gload, runLoad, Gen.load, iexec_seq, iexec_pure, iexec_readOr, iexec_forCount, exec, liftOut, readTok]
+  have e2 : (Env.empty.set 1 (Val.u32 sl)).set 2 (Val.u64 n) 2 = .u64 n := by simp [Env.set]
+  simp only [e2]
+  generalize hF : iexec gcs (gdom st.mask) _ = F
+  have hstep : LoadStep st.mask (toCache st).idx sl 1 F := by
+    subst hF; constructor
+    · intro s k v rest' hm h1 hi
+      rcases s with ⟨st', env, inp, out⟩
+      simp only at hm h1 hi
+      subst hi
+      simp [iexec, exec, eval, assignTo, liftOut, loadField, Env.set, h1, slotPut, slotGet, Slot.fresh, gcs, toCache, hm]
+    · intro s h1 hmiss
+      rcases s with ⟨st', env, inp, out⟩
+      simp only at h1 hmiss
+      rcases inp with _ | ⟨a, tl⟩
+      · simp [iexec, exec, eval, assignTo, liftOut, loadField, failWith, Env.set, h1, slotPut, slotGet, Slot.fresh]
+      · cases a with
+        | key k =>
+          rcases tl with _ | ⟨b, tl⟩
+          · simp [iexec, exec, eval, assignTo, liftOut, loadField, failWith, Env.set, h1, slotPut, slotGet, Slot.fresh]
+          · cases b with
+            | fit v => exact absurd rfl (hmiss k v tl)
+            | _ => simp [iexec, exec, eval, assignTo, liftOut, loadField, failWith, Env.set, h1, slotPut, slotGet, Slot.fresh]
+        | _ => simp [iexec, exec, eval, assignTo, liftOut, loadField, failWith, Env.set, h1, slotPut, slotGet, Slot.fresh]
+  rcases iter_loadStep hstep n.toNat ⟨st, (Env.empty.set 1 (Val.u32 sl)).set 2 (Val.u64 n), rest, []⟩ rfl
+      (by simp [Env.set]) with ⟨s', h1, h2, h3, h4, h5⟩ | ⟨s', h1, h3, h4, h5⟩
+  · simp only [h1]
+    simp only [toCache] at h5 h3 h4
+    simp [eval, h2, assignTo, loadT, toCache, h5, ofCache, h3]
+  · simp only [h1]
+    simp only [toCache] at h5 h3 h4
+    simp [loadT, toCache, h5, ofCache, h3, h4]
+    rcases s' with ⟨⟨m', t', sl'⟩, _, _, _⟩
+    simp only at h3 h4
+    subst h3; subst h4; rfl
+
+open Vita.C04.IO in
+/-- cache::load on ANY token stream is the model's `loadT`: a missing / ill-kinded seal or count returns
+    `false` with the cache untouched; otherwise `n` (key, fitness) pairs are stored under the seal read,
+    a failed read returns `false` and leaves the slots written so far in place (and the old seal), and
+    only a complete read installs the new seal. -/
+theorem gen_load_is_model (st : CState) (inp : List Tok) :
+    gload st inp = some ((loadT (toCache st) inp).1, ofCache st.mask (loadT (toCache st) inp).2) := by
+  have hid : ofCache st.mask (toCache st) = st := rfl
+  rcases inp with _ | ⟨a, tl⟩
+  · simp [gload, runLoad, Gen.load, iexec, exec, liftOut, readTok, failWith, eval, loadT, hid]
+  · cases a with
+    | u32 sl =>
+      rcases tl with _ | ⟨b, tl⟩
+      · simp [gload, runLoad, Gen.load, iexec, exec, liftOut, readTok, failWith, eval, loadT, hid]
+      · cases b with
+        | size n => exact gen_load_header_ok st sl n tl
+        | _ => simp [gload, runLoad, Gen.load, iexec, exec, liftOut, readTok, failWith, eval, loadT, hid]
+    | _ => simp [gload, runLoad, Gen.load, iexec, exec, liftOut, readTok, failWith, eval, loadT, hid]
+
+open Vita.C04.IO in
+/-- **gen_reload_is_model** — what the extracted `save` writes, read by the extracted `load` into a
+    freshly constructed cache of the same size, succeeds and gives exactly the `reload` of the model:
+    the `.reload` step of every history theorem above (`find_sound_gen`, `load_save_fresh_gen`,
+    `proxy_transparent_gen`) is now a statement about the code of save / load as well.
+    (The table has fewer than 2^64 slots: true of every cache `cache(bits)` can construct.) -/
+theorem gen_reload_is_model (st : CState) (h : st.mask.toNat + 1 < 2 ^ 64) :
+    ((gsave st).bind fun r => gload ⟨st.mask, fun _ => Slot.fresh, 1⟩ r.2.2) = some (true, greload st) := by
+  rw [gen_save_is_model, Option.bind_some, gen_load_is_model]
+  have hn : (toCache st).save.n < 2 ^ 64 := by
+    have : (toCache st).save.n ≤ (gdom st.mask).length := by
+      simp only [Cache.save, toCache, List.length_map]
+      exact Nat.le_trans (List.length_filter_le _ _) (by simp)
+    simp only [gdom, List.length_range] at this
+    omega
+  have e : toCache ⟨st.mask, fun _ => Slot.fresh, 1⟩ = Cache.init (toCache st).idx (toCache st).dom := rfl
+  simp only [saveT, e, loadT_toksOf _ _ hn, greload, Cache.reload]
+  have hl := loadGo_all (toCache st).idx (toCache st).sl (toCache st).entries (fun _ => Slot.fresh)
+  simp only [Cache.entries, List.length_map] at hl
+  simp [Cache.load, Cache.save, Cache.init, hl, ofCache]
+
+open Vita.C04.IO in
+/-- a file cut anywhere before its end is never accepted: `load` of a proper prefix of what `save` wrote
+    returns `false` (into any cache) -/
+theorem gen_load_truncated_fails (st st' : CState) (h : st.mask.toNat + 1 < 2 ^ 64) (m : Nat)
+    (hm : m < (saveT (toCache st)).length) :
+    (gload st' ((saveT (toCache st)).take m)).map Prod.fst = some false := by
+  rw [gen_load_is_model, Option.map_some]
+  congr 1
+  have hn : (toCache st).save.n < 2 ^ 64 := by
+    have : (toCache st).save.n ≤ (gdom st.mask).length := by
+      simp only [Cache.save, toCache, List.length_map]
+      exact Nat.le_trans (List.length_filter_le _ _) (by simp)
+    simp only [gdom, List.length_range] at this
+    omega
+  have hlen : (saveT (toCache st)).length = 2 + 2 * (toCache st).save.n := by
+    simp only [saveT, toksOf, List.length_cons, entryToks_length, Cache.save, List.length_map]; omega
+  have e : (UInt64.ofNat (toCache st).save.n).toNat = (toCache st).save.n := by
+    simp only [UInt64.toNat_ofNat']; exact Nat.mod_eq_of_lt hn
+  match m, hm with
+  | 0, _ => rfl
+  | 1, _ => rfl
+  | m + 2, hm =>
+    simp only [saveT, toksOf, List.take_succ_cons, loadT, e]
+    cases hg : loadGoT (toCache st').idx (toCache st).save.sl (toCache st).save.n
+        ((entryToks (toCache st).save.entries).take m) (toCache st').table with
+    | mk b t =>
+      cases b with
+      | false => rfl
+      | true =>
+        have := loadGoT_length _ _ _ _ _ (by rw [hg])
+        simp only [List.length_take, entryToks_length] at this
+        omega
+
+/-- non-vacuity: a 4-slot cache holding two entries of the current seal, one slot of an older seal and
+    one with an empty fitness saves seal, count 2 and the two entries; the same tokens load back -/
+example :
+    let st : CState := ⟨3, fun i => if i = 0 then ⟨⟨4, 9⟩, [7], 2⟩ else if i = 1 then ⟨⟨5, 1⟩, [8], 1⟩
+      else if i = 2 then ⟨⟨6, 2⟩, [], 2⟩ else if i = 3 then ⟨⟨7, 3⟩, [1, 2], 2⟩ else Slot.fresh, 2⟩
+    (gsave st).map (fun r => r.2.2) = some [.u32 2, .size 2, .key ⟨4, 9⟩, .fit [7], .key ⟨7, 3⟩, .fit [1, 2]] := by
+  intro st
+  rw [gen_save_is_model]
+  decide
+
 end Vita.C04
